@@ -61,8 +61,9 @@ META = {
         "although the scale is not exactly 1 — the identity holds to O(eps) only)",
         "Log(Exp x) = x below π: SO3 on all of [0, π] with the STATED DEVIATION that for cos(θ/2) ≤ eps (θ within π·eps of π) "
         "model and code return x·π/θ ≠ x, off by π−θ ≤ π·eps (so3_log_exp_near_pi); rotation and log-scale blocks of "
-        "se3/rxso3/sim3 are those of so3 (log_exp_rot_blocks); the translation block is proved for zero rotation and on the band "
-        "π·eps<θ<π(1−eps) only (measured elsewhere by the logexp stream). Uniqueness in the principal ball: on the open shell "
+        "se3/rxso3/sim3 are those of so3 (log_exp_rot_blocks); the translation block is proved for zero rotation, on the band "
+        "π·eps<θ<π(1−eps), and on se3 for every θ ≤ eps (se3_log_exp_small: ‖τ'−τ‖ ≤ θ^4‖τ‖/26); sim3 near 0 and both near π are measured "
+        "by the logexp stream only. Uniqueness in the principal ball: on the open shell "
         "eps<‖x‖<π only (x = 0 and the Taylor branch excluded), SO3_log_unique in regime 1 only",
         "within 8 ulp (of the dtype) of an odd multiple of π the sign of w = cos(θ/2) is decided by rounding: there Log(Exp x) is "
         "checked as a transformation (Exp(Log(Exp x)) = Exp(x)), and the clause 'angle below π' is applied 4 ulp away from π",
@@ -190,6 +191,8 @@ def anchor_quats(eps):
         s, w = math.sin(th / 2), math.cos(th / 2)
         out.append(([d[0] * s, d[1] * s, d[2] * s, w], f"ang{th:.1f}"))
     out += tie_quats(eps)
+    out.append(([0.0, 1.0, 0.0, -0.0], "w=-0"))          # negative zero: pm(-0.0) must still be +1 (sign tie)
+    out.append(([-0.0, 0.0, -0.0, 1.0], "v=-0"))
     return out
 
 
@@ -402,7 +405,7 @@ def eval_group_case(ctx: Ctx, case, pend):
         if bad:
             ctx.fail(small(case, i), f"explog {name}: Exp(Log(X)) is not the same transformation as X ({dtype}); error/tolerance per block {bad}")
         phi, tau, sig = alg_blocks(name, lg)
-        if norm(phi) > math.pi * (1 + 4 * eps):
+        if not (norm(phi) <= math.pi * (1 + 4 * eps)):
             ctx.fail(small(case, i), f"normpi {name}: rotation part of Log(X) has norm {norm(phi):.17g} > pi ({dtype})")
         tausc = max(tsc, norm(tau)) if tau is not None else 0.0
         if abs(q[3]) > 2 * eps:
@@ -446,9 +449,10 @@ def eval_alg_case(ctx: Ctx, case, pend):
     if E.ltype != U.ltype(name) or tuple(LE.shape) != shape + (ad,) or LE.dtype != D:
         ctx.fail(case, f"type {name}: Exp/Log returned ltype/shape/dtype {E.ltype} {tuple(LE.shape)} {LE.dtype}")
         return
-    if not torch.equal(E.tensor(), E2.tensor()):
+    if not torch.equal(torch.nan_to_num(E.tensor(), nan=1e33), torch.nan_to_num(E2.tensor(), nan=1e33)):
         ctx.fail(case, f"again {name}: second Exp() on the same object differs from the first ({dtype})")
     LEf = LE.tensor().double().reshape(-1, ad).tolist()
+    Ef = E.tensor().double().reshape(-1, gd).tolist()
     for i, a in enumerate(x64.tolist()):
         phi, tau, sig = alg_blocks(name, a)
         th = norm(phi)
@@ -459,6 +463,9 @@ def eval_alg_case(ctx: Ctx, case, pend):
             sl, tl = abs(sig) > eps, th > eps
             ctx.count(f"regime.rxso3_Ws(Exp).{(4 if tl else 3) if sl else (2 if tl else 1)}.{dtype}")
         ctx.count("alg.angle." + ("below-pi" if th < math.pi else "pi-or-above"))
+        if not finite(Ef[i]):
+            ctx.fail(small(case, i), f"nonfinite {name}: Exp(x) produced nan/inf for a finite algebra element ({dtype})")
+            continue
         if not finite(le):
             ctx.fail(small(case, i), f"nonfinite {name}: Log(Exp(x)) produced nan/inf ({dtype})")
             continue
@@ -577,6 +584,7 @@ def mp_check_log(ctx: Ctx, case):
     Xf = X.tensor().double().reshape(-1, U.GDIM[name]).tolist()
     for i, (a, m, x) in enumerate(zip(L, M, Xf)):
         if not finite(a):
+            ctx.fail(small(case, i), f"nonfinite {name}: Log produced nan/inf on a valid element ({dtype})")
             continue
         E = mp.expm(mp_generator(name, a))
         n = U.MATN[name]
@@ -590,7 +598,7 @@ def mp_check_log(ctx: Ctx, case):
                 else:
                     lim = tol_tr(dtype) * max(norm(t) if t is not None else 0.0, 1e-300)
                 if n == 3 or c < 3 or t is not None:
-                    if err > lim and not (c == 3 and t is None):
+                    if not (err <= lim) and not (c == 3 and t is None):
                         ctx.fail(small(case, i), f"mplog {name}: expm(generator(Log X)) differs from matrix(X) at [{r},{c}] by {err:.3e} > {lim:.3e} ({dtype})")
                         break
             else:
@@ -623,7 +631,7 @@ def mp_check_exp_log(ctx: Ctx, case):
                     continue
                 err = abs(float(T[r, c] - mp.mpf(m[r][c])))
                 lim = 4 * tol_rot(dtype) * sc if c < 3 else tol_tr(dtype) * max(tsc, 1e-300)
-                if err > lim:
+                if not (err <= lim):
                     ctx.fail(small(case, i), f"mpexp {name}: matrix(Exp x) differs from expm(generator x) at [{r},{c}] by {err:.3e} > {lim:.3e} ({dtype})")
                     break
             else:
@@ -750,6 +758,9 @@ def order_probe_finish(ctx: Ctx, spec, p):
                 continue
             ctx.count(f"order.{name}.{dtype}")
             ctx.note_case(("order", name, dtype), True)
+            if any(not bool(torch.isfinite(m).all()) for m in mine):
+                ctx.fail({"kind": "order", "type": name, "dtype": dtype}, f"nonfinite {name}: Exp / Log of the fixed corpus contains nan/inf ({dtype})")
+                continue
             for nm, m, o in zip(("Exp(x)", "Log(Exp(x))", "Log(X)", "Exp(Log(X))"), mine, other[dtype + name]):
                 o = torch.tensor(o, dtype=torch.float64)
                 same = m.shape == o.shape and bool(torch.equal(torch.nan_to_num(m, nan=1e33), torch.nan_to_num(o, nan=1e33)))
@@ -810,6 +821,23 @@ def same_err(a, b, width, dtype):
     r = ((a - b).abs() / (K_SAME * common.EPS[dtype] * sc)).amax(-1)
     k = int(r.argmax()) if r.numel() else 0
     return (float(r.max()) if r.numel() else 0.0), k
+
+
+def nonfinite_fail(ctx, case, name, label, t, dtype, rows=None, key=None):
+    """lesson 38: in the probes that compare two evaluations of the same item (where nan_to_num makes NaN equal NaN) a non-finite
+    result for a finite valid input is reported on its own, with the offending item as replay. Log / Exp / Inv have no input in the
+    property's domain for which a non-finite value is the specified result."""
+    tt = t.detach().double().reshape(-1, t.shape[-1]) if t.dim() > 0 else t.detach().double().reshape(1, 1)
+    ok = torch.isfinite(tt).all(-1)
+    if bool(ok.all()):
+        return False
+    k = int((~ok).nonzero()[0])
+    c = dict(case)
+    if rows is not None and key is not None:
+        r2 = rows.double().reshape(-1, rows.shape[-1])
+        c = small({**case, key: r2.tolist(), "shape": [r2.shape[0]], "tags": []}, min(k, r2.shape[0] - 1))
+    ctx.fail(c, f"nonfinite {name}: {label} returns nan/inf for item {k} of a finite valid input ({dtype}): {tt[k].tolist()}")
+    return True
 
 
 def tin_of(in_kind, name, rows):
@@ -891,6 +919,8 @@ def check_views_and_batch(ctx: Ctx, case):
             ref = fn(P.LieTensor(rows.clone(), ltype=lt_)).tensor().double().reshape(-1, ow)
         except Exception as ex:
             ctx.fail(case, f"raises {name}: {label} raised {type(ex).__name__}: {str(ex)[:120]}")
+            continue
+        if nonfinite_fail(ctx, case, name, label, ref, dtype, rows, key):
             continue
         # (a) each item alone
         try:
@@ -1110,6 +1140,8 @@ def check_api_forms(ctx: Ctx, case, forms=True):
         except Exception as ex:
             ctx.fail(case, f"raises {name}: {label} raised {type(ex).__name__}: {str(ex)[:120]}")
             continue
+        if nonfinite_fail(ctx, case, name, label, ref, dtype, rows, "X" if grp else "x"):
+            continue
         forms_d = {
             "function form pp.*": lambda: func(mk()),
             "ltype method on a LieTensor": lambda: on_tensor(mk()),
@@ -1256,6 +1288,8 @@ def run_shape_sweep(ctx: Ctx):
                         except Exception as ex:
                             ctx.fail(case, f"size {name}: {label} on batch shape {shape} raised {type(ex).__name__}: {str(ex)[:120]} ({dtype})")
                             continue
+                        if nonfinite_fail(ctx, case, name, label, gt, dtype, T, "X" if grp else "x"):
+                            continue
                         if tuple(gt.shape) != shape + (ow,) or gt.dtype != D:
                             ctx.fail(case, f"size {name}: {label} on batch shape {shape} returned shape {tuple(gt.shape)} dtype {gt.dtype} ({dtype})")
                             continue
@@ -1308,6 +1342,10 @@ def error_atomic_probe(ctx: Ctx, spec):
         ctx.fail({"kind": "error-atomic"}, f"atomic: after {raised} failing calls the corpus evaluation raises {type(ex).__name__}: {str(ex)[:120]}")
         return
     ctx.note_case(("error-atomic",), True)
+    for k, b in enumerate(before):
+        if not bool(torch.isfinite(b).all()):
+            ctx.fail({"kind": "error-atomic", "index": k}, f"nonfinite: result #{k} of the fixed corpus [Log, Inv, Exp, Log(Exp) per type/dtype] contains nan/inf")
+            return
     for k, (b, a) in enumerate(zip(before, after)):
         if not teq(a, b):
             d = float((a.double() - b.double()).abs().max()) if a.shape == b.shape else float("nan")
@@ -1425,6 +1463,8 @@ def _run_large_batches(ctx, P, rng, pend):
                                     ctx.fail(case, f"large {name}: {label} on {n} items (shape {shape}) returned shape {tuple(full.shape)} ({dtype})")
                                     continue
                                 fullf = full.double().reshape(-1, ow)
+                                if nonfinite_fail(ctx, case, name, label, fullf, dtype, flat, "X" if grp else "x"):
+                                    continue
                                 bad = None
                                 for a in ((2 ** 14, n - 1) if n > 2 ** 16 else (n // 2, 2 ** 14 if n > 2 ** 14 else n // 3, n - 1)):
                                     parts = torch.cat([fn(P.LieTensor(flat[:a].clone(), ltype=lt_)).tensor(),
@@ -1519,6 +1559,8 @@ def mode_order_probe(ctx: Ctx):
                             ctx.note_case(("mode-order", order, step, label, name, kind, dtype), True)
                             try:
                                 got = call(mode, fn, T, lt_).double().reshape(-1, ow)
+                                if nonfinite_fail(ctx, case, name, label + f" in mode '{mode}'", got, dtype, T, "X" if grp else "x"):
+                                    continue
                                 pick = sorted(set([0, n - 1] + [rng.randrange(n) for _ in range(3)]))
                                 got = got[pick]
                                 with torch.no_grad():
@@ -1809,6 +1851,12 @@ def run_algebra_sweep(ctx: Ctx):
                     out.append(sig[(k * 3 + 1) % len(sig)])
                 rows.append(out)
                 tags.append(f"th{common.sig_mag(th)}")
+            if name in ("RxSO3", "Sim3"):       # lesson 38(c): BOTH thresholds of rxso3_Ws hit at once — θ and |σ| each at eps−ulp / eps / eps+ulp
+                for tth in thr_nbrs(eps):
+                    for tsg in thr_nbrs(eps):
+                        for sgn in (1.0, -1.0):
+                            rows.append(([1.0, -2.0, 0.5] if name == "Sim3" else []) + [0.0, 0.0, tth, sgn * tsg])
+                            tags.append("joint-threshold")
             if name in ("RxSO3", "Sim3"):       # class 20: |σ| == θ bit for bit (axis-aligned so that θ is exact), both signs
                 for th in (0.5, 1e-3, 2.0, float(U.to_dtype_exact([[eps * 3]], dtype)[1][0][0])):
                     for sgn in (1.0, -1.0):
